@@ -3,16 +3,22 @@ from contracts import c03_context as C
 from props._generic import run_property, replay_with_driver
 
 LEVEL = "other"
-KEYS = ["HistoryManager.__call__", "HistoryManager.reset", "HistoryManager.size", "get_context", "resettable.wrapper"]
+KEYS = ["HistoryManager.__call__", "HistoryManager.reset", "HistoryManager.size", "get_context", "resettable.wrapper",
+        "Model.__enter__", "Model.__exit__", "add_cons_vars_to_problem", "remove_cons_vars_from_problem"]
 
 
 def run(rep):
-    run_property(rep, KEYS, hooks=C.HOOKS, explanation=(
+    run_property(rep, KEYS, hooks=C.ALL_HOOKS, explanation=(
         "Deductive (kernel): HistoryManager.reset is proved to replay the recorded undo actions last-in-first-out and to empty the "
         "history (loop invariant over the recursive spec function run, with a decreasing variant), __call__ to append, get_context "
         "to return the innermost context of the object's model or None for every object shape, and the resettable wrapper to "
         "register partial(setter, self, OLD value) in the innermost context BEFORE calling the setter, to register nothing when the "
-        "value is unchanged or no context is open, also when the setter raises. That each context-aware operation registers a "
+        "value is unchanged or no context is open, also when the setter raises; Model.__enter__ to push a new empty context and "
+        "Model.__exit__ to pop the innermost one and replay exactly its history - with the obligation that the model's context stack is "
+        "EMPTY while the undo functions run, so that a context-aware undo function cannot re-record itself in an enclosing context "
+        "(this obligation has a counter-model `stack length 2` on the original code: the nested-context defect, repaired in /repo); "
+        "add_cons_vars_to_problem / remove_cons_vars_from_problem to perform the solver call and to register exactly the inverse "
+        "call in the innermost context. That each context-aware operation registers a "
         "correct undo, and that undos compose over whole histories and nestings, is NOT proved: bounded driver (full observable "
         "state incl. the raw GLPK problem snapshotted at __enter__ and compared after __exit__ over operation sequences, nestings, "
         "exits by exception and naturally raising operations)."),
